@@ -25,7 +25,17 @@ def rule_for(pid):
             n += 1
             ok = W.cg.fn_must_call(f, e['callee'])
             wit = None
-            if not ok:
+            if not ok and e.get('after_growth_of'):
+                # the obligation is about what follows a growth of the named collection: no path from a push to a return avoids the call
+                cfg = cfg_of(f)
+                marked = [t.bb for t in f.calls() if W.cg.call_must_reach(t, e['callee'])]
+                grow = [w['bb'] for w in W.writes_to_field(e['after_growth_of'])[0] if w['fn'] is f and w['kind'] == 'call' and
+                        (w.get('callee') or '').split('::')[-1] in ('push_back', 'push', 'push_front', 'insert', 'extend')]
+                bad = [b for b in grow if b not in marked and cfg.path_from_avoiding(b, marked) is not None]
+                ok = bool(grow) and not bad
+                if bad:
+                    wit = path_str(f, cfg.path_from_avoiding(bad[0], marked))
+            elif not ok:
                 cfg = cfg_of(f)
                 marked = [t.bb for t in f.calls() if W.cg.call_must_reach(t, e['callee'])]
                 p = cfg.path_avoiding(cfg.returns, marked) if cfg.returns else None
